@@ -16,7 +16,8 @@ UNITS = {
              'definition.components = Some(components);', ['C14.components.frame']),
             ('paths_not_replaced', 'definition.paths = paths;', '', ['C14.paths']),
             ('cli_base_not_applied', 'builder = builder.with_base(base);', '', ['C14.cli']),
-            ('cli_exit_codes_swapped', 'ExitCode::FAILURE } else { ExitCode::SUCCESS }', 'ExitCode::SUCCESS } else { ExitCode::FAILURE }', ['C13.cli.main']),
+            ('playground_returns_error_text_as_document', 'api: string_default(),', 'api: err.to_string(),', ['C13.playground.compile']),
+        ('cli_exit_codes_swapped', 'ExitCode::FAILURE } else { ExitCode::SUCCESS }', 'ExitCode::SUCCESS } else { ExitCode::FAILURE }', ['C13.cli.main']),
         ('cli_write_error_ignored', 'fs_write_file(&target, api_yaml, fslog)?;', 'let _ = fs_write_file(&target, api_yaml, fslog);', ['C13.cli.run']),
         ('cli_writes_before_serialising', 'let api_yaml = serde_yaml::to_string(&api)?;', 'fs_write_file(&target, String::new(), fslog)?; let api_yaml = serde_yaml::to_string(&api)?;', ['C13.cli.run']),
         ('cli_writes_default_document', 'let api = builder.into_openapi();', 'let api = oal_openapi::Builder::new(proc.eval(&mods)?).into_openapi();', ['C14.cli']),
@@ -157,6 +158,13 @@ UNITS['c02'] = {
     ],
 }
 
+UNITS['c13'] = {
+    'template': 'contracts/c13.vrs',
+    'mutants': [
+        ('digest_skips_generation', 'digest.update(u64_to_be_bytes(generation));', '', ['C13.digest']),
+    ],
+}
+
 UNITS['c10'] = {
     'template': 'contracts/c10.vrs',
     'mutants': [
@@ -224,14 +232,14 @@ UNITS['c01'] = {
         ('decl_recursion_point_named_by_plain_ident', 'None => Expr::Recursion(ident),', 'None => Expr::Recursion(decl.ident()),', ['C09.eval.declaration']),
         ('name_uses_counter_not_innermost_scope', 'let scope_id = match self.scopes.last() { Some((id, _)) => *id, None => 0 };', 'let scope_id = self.scope_id_seq;', ['C09.eval.node_identifier']),
         ('pop_gives_identifier_back', 'self.scopes.pop(); }', 'self.scopes.pop(); if self.scope_id_seq > 0 { self.scope_id_seq -= 1; } }', ['C09.eval.pop_scope']),
-        ('literal_status_read_as_number', 'let lex::TokenValue::HttpStatus(status) = literal.value() else {', 'let lex::TokenValue::Number(status) = literal.value() else {', ['C01.site.eval_literal']),
+        ('literal_status_evaluates_to_number', 'Expr::HttpStatus(*status)', 'Expr::Number(0)', ['C01.site.eval_literal']),
         ('variable_evaluates_the_use_not_the_binder', 'Definition::External(ext) => eval_any(ctx, ext.node(ctx.mods), ann),', 'Definition::External(ext) => eval_any(ctx, variable.node(), ann),', ['C08.eval.variable']),
     ],
 }
 
 PROPS = {
     'C01': {
-        'units': ['c01', 'c07'],
+        'units': ['c01', 'c07', 'c03'],
         'kani': [dict(_KANI_STATUS, obligation='C01.status.try_from.total')],
         'level': 'other',
         'scans': [
@@ -260,7 +268,7 @@ PROPS = {
         'not_decided': ['preservation (that the inferred tag describes the evaluated value)', 'termination of evaluation / stack depth', 'compose_annotations (YAML annotation parsing); eval_literal is total relative to the lexer invariant "a literal token carries a value of its kind" (unit lex, stated as a precondition), eval_primitive and the `eval` entry point are total; eval_application / eval_variable / eval_binding / eval_declaration / eval_recursion and the eval_any dispatcher are under contract since 12.8-12.12, their panics being excluded relative to stated preconditions (definition slots set by the resolver, the applied identifier has a function tag, the binder\'s frame is on the stack, the node kind is one of the 19 evaluable kinds)', 'emitter unreachable!/expect sites (oal-openapi)', 'loader/ModuleSet unwraps'],
     },
     'C02': {
-        'units': ['c02'],
+        'units': ['c02', 'c03'],
         'level': 'other',
         'obligation_prefixes': ['C02.'],
         'technique': 'Verus contracts on the real emitter functions Builder::{all_paths, relation_path_item, xfer_params, xfer_request, domain_request, xfer_responses, content_headers, prop_header, method_label} over mirrored openapiv3 field lists and the real spec::{Transfer, Relation, Spec, Content, Object} types',
@@ -285,9 +293,11 @@ PROPS = {
         'level': 'other',
         'obligation_prefixes': ['C03.', 'SCAFFOLD.C03.'],
         'scans': [
-            _fn_text_scan('A2.value_schema_returns_item', 'oal-openapi/src/lib.rs', 'impl Builder', 'value_schema', [r'ReferenceOr::Item\(sch\)\s*\}\s*$'], [r'ReferenceOr::Reference']),
-            _fn_text_scan('A3.path_key_from_same_uri', 'oal-openapi/src/lib.rs', 'impl Builder', 'all_paths', [r'rel\.uri\.pattern\(\)', r'self\.relation_path_item\(rel\)']),
+                        _fn_text_scan('A3.path_key_from_same_uri', 'oal-openapi/src/lib.rs', 'impl Builder', 'all_paths', [r'rel\.uri\.pattern\(\)', r'self\.relation_path_item\(rel\)']),
             _fn_text_scan('A3.path_params_from_same_uri', 'oal-openapi/src/lib.rs', 'impl Builder', 'relation_path_item', [r'parameters:\s*self\.uri_params\(&rel\.uri\)']),
+            {'name': 'A9.variadic_op_constructed_only_in_eval_variadic_operation', 'kind': 'grep_count', 'token': r'(?<!struct )\bVariadicOp\s*\{',
+             'files': ['oal-compiler/src/eval.rs', 'oal-compiler/src/spec.rs', 'oal-compiler/src/stdlib.rs', 'oal-compiler/src/annotation.rs', 'oal-openapi/src/lib.rs'], 'count': 1,
+             'why': 'value_schema_pre (no schema operation carries the content operator ::) is established where a spec::VariadicOp is built: the one site, in eval_variadic_operation, is under contract (unit c01)'},
             {'name': 'A4.status_code_constructed_only_in_try_from', 'kind': 'grep_count', 'token': r'HttpStatus::Code\s*\(',
              'files': ['oal-syntax/src/atom.rs', 'oal-syntax/src/lexer.rs', 'oal-syntax/src/parser.rs', 'oal-compiler/src/eval.rs', 'oal-compiler/src/spec.rs',
                        'oal-compiler/src/stdlib.rs', 'oal-compiler/src/annotation.rs', 'oal-openapi/src/lib.rs'], 'count': 2},
@@ -565,14 +575,17 @@ PROPS = {
         'not_decided': [],
     },
     'C13': {
-        'units': ['c14'],
+        'units': ['c14', 'c13'],
         'level': 'other',
         'obligation_prefixes': ['C13.'],
-        'technique': 'Verus contracts on the real CLI entry point: oal-cli.rs `main` and `run`, with every write attempt of the process recorded in a ghost log',
+        'technique': 'Verus contracts on the real CLI entry point (oal-cli.rs `main`, `run`, every write attempt recorded in a ghost log) and on the real playground entry point (oal-wasm `process`, `compile`)',
         'level_text': 'Deductive proof (Verus/Z3) over the real bodies of `run` and `main` (oal-cli.rs), for all configurations and all outcomes of the phases they call: '
                       '`run` Ok ==> exactly one write was attempted, it succeeded, and it wrote a complete serialised document to the configured target; '
                       '`run` Err ==> either no write was attempted at all (every error of loading, parsing, compiling, evaluating, reading the base or serialising comes before the only write), or the single write to the target is what failed; '
                       '`main` exits with code 0 exactly when that one successful write happened, and with code 1 otherwise. '
+                      'Front ends: the real `process` / `compile` of oal-wasm and the CLI `run` are proved to emit THE document of the evaluated program (every field of the OpenAPI object and of its components is fixed by the contract of into_openapi, so the document is unique: lemma), '
+                      'hence for the same evaluated program and no base the CLI writes and the playground returns the same text; `compile` returns either that text or an empty document with an error. '
+                      'The one input of the evaluator besides the source text, the module URL hashed into generated component names by the real NodeRef::digest (unit c13), makes the two front ends DISAGREE on programs with generated names: known finding (DESIGN 12.26). '
                       'The playground (oal-wasm) and language-server clauses, "prints a diagnostic located in the sources", and what a failing `std::fs::write` leaves on disk are not decided: level other.',
         'level_note': 'ASSUMED (shims): Config::{new,main,target,base,is_quiet,verbosity}, Processor::{load,eval} (the compiler pipeline; its error paths all surface as Err before the write), DefaultFileSystem::open_file, serde_yaml::{from_reader,to_string}, '
                       'stderrlog builder (`init` succeeds: it is called once), `fs_write_file` = DefaultFileSystem.write_file with the attempt pushed on the ghost log (rule R-ghost). eprintln!/error!/info!/debug! are dropped (rule R3): diagnostics are not modelled. '
@@ -580,7 +593,7 @@ PROPS = {
         'design_ref': 'DESIGN.md section 12.10',
         'explanation': 'First sentence of the statement, CLI part. Listed not applicable in the plan because it speaks of process exit status and file-system effects; a ghost log of write attempts threaded through run/main turns both into postconditions.',
         'assumptions': ['the only file-system write of the CLI is the DefaultFileSystem.write_file call in run (Processor::load/eval do not write)', 'stderrlog init succeeds', 'process exit status is the ExitCode returned by main'],
-        'not_decided': ['CLI and playground entry point agree (oal-wasm)', 'language server publishes a diagnostic exactly when they fail', 'a diagnostic located in the sources is printed', 'state of the target after a failing write (std::fs::write may truncate)'],
+        'not_decided': ['that the two loaders (ProcLoader over the file system, WebLoader over one string) yield the same module set for the same sources, and that both front ends FAIL on the same inputs (the error paths go through the generic Err of module::load)', 'language server publishes a diagnostic exactly when they fail', 'a diagnostic located in the sources is printed', 'state of the target after a failing write (std::fs::write may truncate)'],
     },
     'C14': {
         'units': ['c14'],
